@@ -37,11 +37,14 @@ def c07a(tree, ob):
     ph = one(partial, 'VerifyError (partial message) handler', ob)
     msgr = tree.klass(SESS, 'Messenger')
     drops = [st for (f, st, k, v) in stores_to_self_attr(msgr, '__rx_buf') if f is func and k == 'assign']
-    drop = one(drops, 'consume of the receive buffer', ob)
+    ob.require(drops, 'no consume of the receive buffer')
     acts = method_calls(func, 'recv_message', 'self')
     act = one(acts, 'recv_message dispatch', ob)
     after = fv.cfg.reachable([fv.cfg.node_of(ph)])
-    bad = [n for n in (fv.node(drop), fv.node(act)) if n in after]
+    bad = [n for n in [fv.node(d) for d in drops] + [fv.node(act)] if n in after]
+    # the consume that precedes the dispatch (others, if any, were just judged against the partial path)
+    main = [d for d in drops if fv.node(d) not in after]
+    drop = one(main, 'consume of the receive buffer on the complete-message path', ob) if main else drops[0]
     if bad:
         ob.violate(SESS, fv.qual, 'except VerifyError: ... ' + bad[0].text()[:50], 'after a partial decode the buffer is consumed or a message is acted on', ph)
     else:
